@@ -650,7 +650,7 @@ def c20_require(agg):
     st = agg["stats"]
     need = []
     for k, n in (("streams", 500), ("queued_before_conversion", 500), ("pending_polls", 100), ("wakeups_observed", 100),
-                 ("consumer_block_on", 100), ("consumer_LocalPool", 100), ("consumer_manual", 100)):
+                 ("consumer_block_on", 100), ("consumer_LocalPool", 100), ("consumer_manual", 100), ("pair_storm_trials", 5000)):
         if st.get(k, 0) < n:
             need.append("%s < %d" % (k, n))
     if st.get("max_streams_in_one_scenario", 0) < 24:
